@@ -16,6 +16,9 @@ use std::{
 
 use clap::{crate_version, error::ErrorKind, Arg, ArgAction};
 
+#[cfg(feature = "verif-hooks")]
+pub mod verif_hooks;
+
 mod options {
     pub const COMMAND: &str = "COMMAND";
 
@@ -76,6 +79,10 @@ trait CommandSizeLimiter {
         cursor: LimiterCursor<'_>,
     ) -> Result<Argument, ExhaustedCommandSpace>;
     fn dyn_clone(&self) -> Box<dyn CommandSizeLimiter>;
+    #[cfg(feature = "verif-hooks")]
+    fn verif_state(&self) -> (u8, usize, usize) {
+        (0, 0, 0)
+    }
 }
 
 /// A pointer to the next limiter. A limiter should *always* call the cursor's
@@ -207,6 +214,10 @@ impl CommandSizeLimiter for MaxCharsCommandSizeLimiter {
     fn dyn_clone(&self) -> Box<dyn CommandSizeLimiter> {
         Box::new(self.clone())
     }
+    #[cfg(feature = "verif-hooks")]
+    fn verif_state(&self) -> (u8, usize, usize) {
+        (b's', self.current_size, self.max_chars)
+    }
 }
 
 #[derive(Clone)]
@@ -246,6 +257,10 @@ impl CommandSizeLimiter for MaxArgsCommandSizeLimiter {
 
     fn dyn_clone(&self) -> Box<dyn CommandSizeLimiter> {
         Box::new(self.clone())
+    }
+    #[cfg(feature = "verif-hooks")]
+    fn verif_state(&self) -> (u8, usize, usize) {
+        (b'n', self.current_args, self.max_args)
     }
 }
 
@@ -290,6 +305,10 @@ impl CommandSizeLimiter for MaxLinesCommandSizeLimiter {
 
     fn dyn_clone(&self) -> Box<dyn CommandSizeLimiter> {
         Box::new(self.clone())
+    }
+    #[cfg(feature = "verif-hooks")]
+    fn verif_state(&self) -> (u8, usize, usize) {
+        (b'L', self.current_line, self.max_lines)
     }
 }
 
@@ -403,7 +422,10 @@ impl CommandBuilder<'_> {
             ExecAction::Echo => (OsStr::new("echo"), &[]),
         };
 
+        #[cfg_attr(feature = "verif-hooks", allow(unused_mut))]
         let mut command = Command::new(entry_point);
+        #[cfg(feature = "verif-hooks")]
+        let mut command = verif_hooks::HookedCommand(command);
 
         if let Some(replace_str) = &self.options.replace {
             // Replace all occurrences in initial args with the extra arg,
@@ -733,6 +755,8 @@ fn process_input(
         }
 
         have_pending_command = true;
+        #[cfg(feature = "verif-hooks")]
+        verif_hooks::observe(&current_builder, have_pending_command, &result);
     }
 
     if !options.no_run_if_empty || have_pending_command {
